@@ -220,8 +220,7 @@ def generate(tier, seed, ctx):
     lmax_tab = LMAX if thorough else 5
     for l in range(0, lmax_tab + 1):
         for m in range(-l, l + 1):
-            if l >= 1:
-                R.append("c17.vshsum %d %d" % (l, m))
+            R.append("c17.vshsum %d %d" % (l, m))     # l = 0 included: the l_hat = -1 entries vanish, the sums are 1 and 0
             for comp in (0, 1, 2):
                 for lh in range(l - 2, l + 3):
                     for mh in range(m - 2, m + 3):
@@ -244,13 +243,13 @@ def generate(tier, seed, ctx):
     for l in range(0, LMAX + 1):
         for m in range(-l, l + 1):
             dirs = [rng.choice(DIR_SPECIAL)] + [("rnd", rng.uniform(0.01, math.pi - 0.01), rng.uniform(0, 2 * math.pi)) for _ in range(ndir)]
-            if thorough:
+            if thorough or l == 0:
                 dirs += DIR_SPECIAL
             for (nm, th, ph) in dirs:
                 R.append("c17.sph %d %d %s %s" % (l, m, hx(th), hx(ph)))
-                if l >= 1:
-                    R.append("c17.vshY %d %d %s %s" % (l, m, hx(th), hx(ph)))
-                    R.append("c17.vshPsi %d %d %s %s" % (l, m, hx(th), hx(ph)))
+                # l = 0 is inside the quantifier: Y = r_hat / sqrt(4 pi), Psi = 0
+                R.append("c17.vshY %d %d %s %s" % (l, m, hx(th), hx(ph)))
+                R.append("c17.vshPsi %d %d %s %s" % (l, m, hx(th), hx(ph)))
     ctx["round_results"] = []
     ctx["worst"] = {}
     return R
